@@ -24,3 +24,22 @@ Proof. reflexivity. Qed.
 
 Lemma negate_table_is_neg3 : forall x, run_neg negate_table x = neg3 x.
 Proof. intros x. destruct x; reflexivity. Qed.
+
+Lemma all_loop_is_and_fold : forall acc rs, run_loop all_group_loop acc rs = and_fold rs.
+Proof.
+  intros acc rs. revert acc. induction rs as [|r rest IH]; intros acc; cbn [run_loop and_fold].
+  - reflexivity.
+  - destruct (r tt) as [x|e|n]; cbn [bind]; try reflexivity.
+    destruct x; cbn [act_of all_group_loop l_T l_F l_M]; [apply IH | reflexivity | reflexivity].
+Qed.
+
+Lemma of0_loop_is_of0_fold : forall acc rs, run_loop of0_group_loop acc rs = of0_fold acc rs.
+Proof.
+  intros acc rs. revert acc. induction rs as [|r rest IH]; intros acc; cbn [run_loop of0_fold].
+  - reflexivity.
+  - destruct (r tt) as [x|e|n]; cbn [bind]; try reflexivity.
+    destruct x; cbn [act_of of0_group_loop l_T l_F l_M]; [reflexivity | apply IH | apply IH].
+Qed.
+
+Lemma of0_loop_starts_missing : l_init of0_group_loop = M.
+Proof. reflexivity. Qed.
